@@ -88,7 +88,7 @@ Q(n, vs) == H(n, n, vs)                 \* query parameter names are case-sensit
 EQ(n, p, z, b) == [cname |-> n, m |-> M(p, z), b64 |-> b]
 Verbs   == {"GET", "POST", "PUT", "DELETE", ""}
 Paths   == {"/connectrpc.conformance.v1.ConformanceService/Unary", "/foo/bar.baz"}
-InlineQ == << <<>>, <<Q("q", <<"q">>), Q("x", <<"456">>)>> >>
+InlineQ == << <<>>, <<Q("q", <<"q">>), Q("x", <<"456">>)>>, <<Q("x", <<"456">>), Q("q", <<"q", "r">>)>> >>   \* (the last: names not in alphabetical order)
 RawQ == <<
   <<>>,
   <<Q("q", <<"a", "b", "c">>), Q("x", <<"123">>)>>,
@@ -119,8 +119,8 @@ Req(v, p, iq, rq, eq, h, b) == [verb |-> v, path |-> p, inlineq |-> InlineQ[iq],
                                 hdrs |-> ReqHdrShapes[h], body |-> b]
 ReqDefs ==
   {Req("POST", "/connectrpc.conformance.v1.ConformanceService/Unary", e[1], e[2], e[3], e[4], b) :
-      e \in {<<1, 1, 1, 1>>, <<1, 2, 2, 2>>, <<2, 3, 3, 3>>, <<2, 4, 4, 4>>}, b \in ReqBodies}
-  \cup {Req(v, p, iq, rq, eq, h, b) : v \in Verbs, p \in Paths, iq \in 1..2, rq \in 1..4, eq \in 1..4, h \in 1..4,
+      e \in {<<1, 1, 1, 1>>, <<1, 2, 2, 2>>, <<2, 3, 3, 3>>, <<2, 4, 4, 4>>, <<3, 1, 1, 1>>, <<2, 1, 1, 2>>}, b \in ReqBodies}
+  \cup {Req(v, p, iq, rq, eq, h, b) : v \in Verbs, p \in Paths, iq \in 1..3, rq \in 1..4, eq \in 1..4, h \in 1..4,
                                       b \in (IF Level = "t" THEN CoreReqBodies ELSE {Unary("txt", 2)})}
 
 \* the query of a request as required on the wire, name by name
